@@ -7,7 +7,7 @@
 (* clauses and the run goes on; Consumed (POSTCONDITION) demands that      *)
 (* every step of every case was judged.                                    *)
 (***************************************************************************)
-EXTENDS JudgeC01, JudgeHist, Json, IOUtils, TLCExt
+EXTENDS JudgeC01, JudgeHist, JudgeC15, JudgeC20, JudgePass, Json, IOUtils, TLCExt
 
 (* The case file is deserialised ONCE (in Init, into TLC register 7); TLC would otherwise
    re-read the JSON file at every reference of a zero-arity definition built on IOEnv. *)
@@ -31,6 +31,11 @@ Fails(c, s) ==
     [] c.kind = "optable" -> C01OpTableFails(c)
     [] c.kind = "ttcode"  -> C01TTCodeFails(c)
     [] c.kind = "hist"    -> HistFails(c, s)
+    [] c.kind = "partial" -> C15Fails(c)
+    [] c.kind = "pass"    -> IF c.prop = "C03" THEN C03Fails(c) ELSE C18Fails(c)
+    [] c.kind = "trav"    -> C20TravFails(c)
+    [] c.kind = "topsort" -> C20TopFails(c)
+    [] c.kind = "cycle"   -> C20CycleFails(c)
     [] c.kind = "same"    -> FailSet(<< <<c.what, c.a = c.b /\ c.exc = "">> >>)
 
 Drift(c, s) == IF c.kind = "hist" THEN HistDrift(c, s) ELSE {}
